@@ -24,11 +24,34 @@ def comprehension(interp, xs, gens, i, child, emit):
     raise Unsupported('comprehension over symbolic-length sequence must be a plain list comprehension')
 
 
+def as_slist(interp, src):
+    """SList view of a symbolic iterable: SList itself, the rest of an SIter (which is consumed), or an
+    enumerate() of one of these."""
+    if isinstance(src, SList):
+        return src
+    if isinstance(src, models.SIter):
+        rest = slice_(interp, src.xs, slice(src.pos, None, None)) if not (isinstance(src.pos, int) and src.pos == 0) \
+            else src.xs
+        src.pos = wrap(src.xs.length)
+        return rest
+    if isinstance(src, models.SEnumerate):
+        inner = as_slist(interp, src.src)
+        start = src.start
+        uid = _fresh_uid(interp, inner.uid + '.enum')
+
+        def elem(interp2, idx_term):
+            return (interp2.binop(ast.Add, start, wrap(idx_term)), models.slist_elem(interp2, inner, idx_term))
+
+        return SList(inner.length, elem, uid)
+    raise Unsupported('not a symbolic sequence: %r' % (src,))
+
+
 def map_comprehension(interp, node, frame, xs):
-    """ListComp node with a single generator over SList ``xs`` and no conditions."""
+    """ListComp / GeneratorExp node with a single generator over a symbolic sequence and no conditions."""
     from .interp import Frame, PyRaise, _comp_info
     g = node.generators[0]
     st = interp.st
+    xs = as_slist(interp, xs)
     uid = _fresh_uid(interp, xs.uid + '.map')
     child_info = _comp_info(frame.info, node.generators)
     enclosing = frame.enclosing + [frame.locals]
@@ -129,6 +152,12 @@ def contains(interp, xs, x):
 
 
 def method(interp, xs, name, args, kwargs):
+    from .mlist import MList
+    from . import mlist
+    if isinstance(xs, MList) and name in ('append', 'insert', 'pop', 'extend', 'copy', 'clear'):
+        return mlist.method(interp, xs, name, args, kwargs)
+    if name in ('append', 'insert', 'pop', 'extend', 'clear', 'remove', 'sort', 'reverse'):
+        raise Unsupported('mutation (%s) of an immutable symbolic sequence: declare it MListOf(...)' % name)
     if name == '__len__':
         return wrap(xs.length)
     if name == 'copy':
@@ -136,3 +165,183 @@ def method(interp, xs, name, args, kwargs):
     if name == '__iter__':
         return models.SIter(xs, 0)
     raise Unsupported('method %s on symbolic-length sequence' % name)
+
+
+class FilteredSList(SList):
+    """`[body(x) for x in xs if cond(x)]`: defined by ghost maps
+         src(k)    -- index in xs of the k-th item of the result (strictly increasing),
+         pos_of(i) -- position in the result of xs[i] when cond(xs[i]) holds."""
+    __slots__ = ('src_fn', 'pos_fn', 'source')
+
+
+def filter_comprehension(interp, node, frame, xs):
+    """ListComp / GeneratorExp with one generator over a symbolic sequence WITH conditions.
+    body and conditions must be pure and total (probed on a generic element)."""
+    from .interp import Frame, _comp_info
+    g = node.generators[0]
+    xs = as_slist(interp, xs)
+    child_info = _comp_info(frame.info, node.generators)
+    enclosing = frame.enclosing + [frame.locals]
+
+    def at(interp2, x):
+        child = Frame(child_info, {}, enclosing, frame.first_arg, frame.defcls)
+        interp2.assign(g.target, x, child)
+        return child
+
+    def cond(interp2, x):
+        child = at(interp2, x)
+        ts = [to_z3(interp2.truth(interp2.eval(c, child))) for c in g.ifs]
+        return z3.And(*ts) if len(ts) > 1 else ts[0]
+
+    def body(interp2, x):
+        return interp2.eval(node.elt, at(interp2, x))
+
+    return filtered(interp, xs, cond, body)
+
+
+def filtered(interp, xs, cond, body=None):
+    """The sub-sequence of xs of the elements satisfying cond (optionally mapped by body), defined by
+    the ghost maps src / pos_of (see FilteredSList).  cond(interp, x) -> z3 Bool term; both pure."""
+    from .interp import PyRaise
+    st = interp.st
+    xs = as_slist(interp, xs)
+    uid = _fresh_uid(interp, xs.uid + '.filter')
+    src_fn = z3.Function(uid + '.src', z3.IntSort(), z3.IntSort())
+    pos_fn = z3.Function(uid + '.pos_of', z3.IntSort(), z3.IntSort())
+    n_out = st.fresh_int(uid + '.len')
+    st.assume(z3.And(n_out >= 0, n_out <= xs.length))
+
+    def cond_at(interp2, i_term):
+        return cond(interp2, models.slist_elem(interp2, xs, i_term))
+
+    def elem(interp2, k_term):
+        x = models.slist_elem(interp2, xs, src_fn(k_term))
+        return body(interp2, x) if body is not None else x
+
+    out = FilteredSList(n_out, elem, uid)
+    out.src_fn, out.pos_fn, out.source = src_fn, pos_fn, xs
+    ntrace = len(st.trace)
+
+    def quantified(lo, hi, body_fn, name):
+        j = st.fresh_int(name)
+        rng = z3.And(lo <= j, j < hi)
+        n_pc = len(st.pc)
+        n_fresh = len(st.fresh_log)
+        st.no_fork += 1
+        st.solver.push()
+        st.side_conditions.append([])
+        try:
+            with st.scope(rng):
+                if st.check() == z3.unsat:
+                    b = z3.BoolVal(True)
+                else:
+                    try:
+                        b = body_fn(j)
+                    except PyRaise as e:
+                        raise Unsupported('filter: body/condition may raise (%r)' % (e.exc,))
+        finally:
+            st.no_fork -= 1
+            st.solver.pop()
+            learned = st.pc[n_pc:]
+            del st.pc[n_pc:]
+            side = st.side_conditions.pop()
+        if side:
+            # the defining facts of the filter do not get to assume that accesses are in range
+            raise Unsupported('filter: element access not provably in range')
+        created = [c for c in st.fresh_log[n_fresh:] if not c.eq(j)]
+        subst = [(c, z3.Function(c.decl().name() + '@', z3.IntSort(), c.sort())(j)) for c in created]
+        if subst:
+            learned = [z3.substitute(t, *subst) for t in learned]
+            b = z3.substitute(b, *subst)
+        for t in learned:
+            st._add(z3.ForAll([j], t) if models._mentions(t, j) else t)
+        st._add(z3.ForAll([j], z3.Implies(rng, b)))
+
+    # every item comes from an element that satisfies the condition, in increasing source order
+    quantified(z3.IntVal(0), n_out,
+               lambda k: z3.And(src_fn(k) >= 0, src_fn(k) < xs.length, pos_fn(src_fn(k)) == k), uid + '.k')
+    quantified(z3.IntVal(0), n_out, lambda k: cond_at(interp, src_fn(k)), uid + '.k')
+    quantified(z3.IntVal(0), n_out - 1, lambda k: src_fn(k) < src_fn(k + 1), uid + '.k')
+    # every element that satisfies the condition is in the result
+    quantified(z3.IntVal(0), xs.length,
+               lambda i: z3.Implies(cond_at(interp, i),
+                                    z3.And(pos_fn(i) >= 0, pos_fn(i) < n_out, src_fn(pos_fn(i)) == i)), uid + '.i')
+    if len(st.trace) != ntrace:
+        raise Unsupported('filter has ghost effects: needs an explicit loop contract')
+    return out
+
+
+def reversed_(interp, xs):
+    xs = as_slist(interp, xs)
+    n = xs.length
+    uid = _fresh_uid(interp, xs.uid + '.reversed')
+
+    def elem(interp2, idx_term):
+        return models.slist_elem(interp2, xs, z3.simplify(n - 1 - idx_term))
+
+    return SList(n, elem, uid)
+
+
+class SortedSList(SList):
+    """sorted(xs): a permutation of xs (ghost bijection perm / inv) in non-decreasing order"""
+    __slots__ = ('perm_fn', 'inv_fn', 'source')
+
+
+def _le_lex(a, b):
+    """a <= b for ints or tuples of ints (lexicographic), as a z3 term"""
+    if isinstance(a, tuple):
+        if len(a) != len(b):
+            raise Unsupported('sorted: tuples of different lengths')
+        if not a:
+            return z3.BoolVal(True)
+        ta, tb = to_z3(a[0]), to_z3(b[0])
+        if len(a) == 1:
+            return ta <= tb
+        return z3.Or(ta < tb, z3.And(ta == tb, _le_lex(a[1:], b[1:])))
+    ta, tb = to_z3(a), to_z3(b)
+    if z3.is_string(ta):
+        return ta <= tb
+    return ta <= tb
+
+
+def sorted_(interp, xs):
+    st = interp.st
+    xs = as_slist(interp, xs)
+    n = xs.length
+    uid = _fresh_uid(interp, xs.uid + '.sorted')
+    perm = z3.Function(uid + '.perm', z3.IntSort(), z3.IntSort())
+    inv = z3.Function(uid + '.inv', z3.IntSort(), z3.IntSort())
+
+    def elem(interp2, k_term):
+        return models.slist_elem(interp2, xs, perm(k_term))
+
+    out = SortedSList(n, elem, uid)
+    out.perm_fn, out.inv_fn, out.source = perm, inv, xs
+    k = st.fresh_int(uid + '.k')
+    rng = z3.And(0 <= k, k < n)
+    st._add(z3.ForAll([k], z3.Implies(rng, z3.And(perm(k) >= 0, perm(k) < n, inv(perm(k)) == k,
+                                                    inv(k) >= 0, inv(k) < n, perm(inv(k)) == k))))
+    # order (element shapes: ints / tuples of ints / strings)
+    j = st.fresh_int(uid + '.j')
+    n_pc = len(st.pc)
+    st.no_fork += 1
+    st.solver.push()
+    st.side_conditions.append([])
+    try:
+        with st.scope(z3.And(0 <= j, j < n - 1)):
+            if st.check() != z3.unsat:
+                a = models.slist_elem(interp, xs, perm(j))
+                b = models.slist_elem(interp, xs, perm(j + 1))
+                order = _le_lex(a, b)
+            else:
+                order = z3.BoolVal(True)
+    finally:
+        st.no_fork -= 1
+        st.solver.pop()
+        learned = st.pc[n_pc:]
+        del st.pc[n_pc:]
+        st.side_conditions.pop()
+    for t in learned:
+        st._add(z3.ForAll([j], t) if models._mentions(t, j) else t)
+    st._add(z3.ForAll([j], z3.Implies(z3.And(0 <= j, j < n - 1), order)))
+    return out
